@@ -6,6 +6,7 @@ import (
 
 	abci "github.com/tendermint/tendermint/abci/types"
 
+	sdk "github.com/pokt-network/posmint/types"
 	posTypes "github.com/pokt-network/posmint/x/pos/types"
 )
 
@@ -38,6 +39,9 @@ func (f *Fam) monQuery(fail func(string, string, string)) {
 	// a module query (no height: the committed state), also in the middle of a block: it answers from what was
 	// committed, whatever the transactions of the running block have written so far
 	{
+		for _, path := range []string{"custom/gov/daoOwner", "custom/gov/acl", "custom/gov/upgrade"} {
+			f.guardQuery(func() { f.app.Query(abci.RequestQuery{Path: path}) })
+		}
 		var res abci.ResponseQuery
 		if r := f.guardQuery(func() { res = f.app.Query(abci.RequestQuery{Path: "custom/pos/parameters"}) }); r != "" {
 			fail("query-no-crash", "C14:query-panic", "the pos parameters query panicked: "+r)
@@ -52,6 +56,28 @@ func (f *Fam) monQuery(fail func(string, string, string)) {
 					fail("committed-at-height", "C14:module-query-not-committed-state", fmt.Sprintf("the pos parameters query (inside a block: %v) answered %q, committed: %q", f.inBlock, p.String(), f.committedParams))
 				}
 			}
+		}
+	}
+	// C11: a read-only call changes nothing - not the state and not what block execution goes on to read: after the
+	// queries above the keepers, asked on the state of the running block, still answer what that state's store holds
+	{
+		got := f.app.Pos.GetParams(f.app.Ctx())
+		want := posTypes.Params{}
+		raw := f.app.Snap().Params
+		ok := true
+		for _, pr := range (&want).ParamSetPairs() {
+			if err := posTypes.ModuleCdc.UnmarshalJSON([]byte(raw["pos/"+string(pr.Key)]), pr.Value); err != nil {
+				ok = false
+			}
+		}
+		// (the keeper's GetParams puts the derived count - fraction times window, rounded - where the fraction belongs)
+		want.MinSignedPerWindow = sdk.NewDec(want.MinSignedPerWindow.MulInt64(want.SignedBlocksWindow).RoundInt64())
+		f.extra["c11:keeper-view-after-queries-checked"]++
+		if ok && got.String() != want.String() {
+			fail("readonly", "C11:query-changed-what-execution-reads", fmt.Sprintf("after read-only queries (inside a block: %v) the pos keeper reads %q on the running state, whose store holds %q", f.inBlock, got.String(), want.String()))
+		}
+		if o, rawO := hx(f.app.Gov.GetDAOOwner(f.app.Ctx())), raw["gov/daoOwner"]; ok && rawO != "\""+o+"\"" && !(o == "" && (rawO == "\"\"" || rawO == "null")) {
+			fail("readonly", "C11:query-changed-what-execution-reads", fmt.Sprintf("after read-only queries the gov keeper names %q as DAO owner on the running state, whose store holds %s", o, rawO))
 		}
 	}
 	keys := [2][]byte{posTypes.ProposerKey, posTypes.PrevStateTotalPowerKey}
